@@ -136,3 +136,9 @@ PARTIAL += [
     "arbitrary InvS state), and that the parser never calls set_value for an item that exists (hypothesis `new or has a packet`).",
 ]
 # ---- independent review rA (notes/review/rA-review.md): CifModel.Props.ReviewRC07 is listed in group gX's LEAN_MODULES above ----
+
+PARTIAL += [
+    "review rB: C07_walk_read_identical is now positional at the level (container node, loop node, packet index) + 'the all-continue walk is the "
+    "full traversal of the walker's tree'; the step from there to the HANDLE the item callback receives (`.item path i j k` of C14's "
+    "positional traversal, Spec/TraversalPos.lean) is not a theorem",
+]
